@@ -203,7 +203,7 @@ def run_property(pid, tier, seed, obligations, meta, jobs=None):
         "distinct_nontrivial": sum(1 for r in results if r["status"] in ("discharged", "refuted") and not r.get("trivial")),
         "solver_seconds": round(sum(r.get("smt_seconds", 0) for r in results), 2),
         "smt_queries": sum(r.get("smt_queries", 0) for r in results),
-        "obligation_results": [{k: r.get(k) for k in ("name", "tag", "status", "backend", "seconds", "paths", "identities", "smt_queries") if r.get(k) is not None} for r in results],
+        "obligation_results": [{k: r.get(k) for k in ("name", "tag", "status", "backend", "seconds", "paths", "identities", "smt_queries", "raised", "cases") if r.get(k) is not None} for r in results],
     }
     ev = {
         "property_id": pid,
